@@ -5,6 +5,9 @@ set -u
 PATCH="$1"; shift
 git -C /repo diff --quiet || { echo "refusing: /repo has uncommitted changes"; exit 2; }
 git -C /repo apply "$PATCH" || { echo "patch does not apply"; exit 2; }
+# evidence and replay files of runs against a changed tree must never land in /verif
+export VERIF_OUT_ROOT=/tmp/sens_out EXPSIM_OUT_ROOT=/tmp/sens_out VERIF_C17_OUT=/tmp/sens_out
+mkdir -p /tmp/sens_out/evidence /tmp/sens_out/replays
 trap 'git -C /repo checkout -- . ; git -C /repo clean -fdq -- statime statime-linux >/dev/null 2>&1' EXIT
 "$@"
 echo "exit=$?"
